@@ -4,7 +4,8 @@
 set -e
 cd "$(dirname "$0")"
 mkdir -p .cache evidence replays
-(cd lean && lake build 2>&1 | tail -5)
+exes=$(sed -n 's/^name = "\(xzm_[a-z0-9_]*\)"/\1/p' lean/lakefile.toml | tr '\n' ' ')
+(cd lean && lake build XzVerif $exes 2>&1 | tail -5)
 python3 - <<'PY'
 import sys, os
 sys.path.insert(0, os.path.join(os.getcwd(), "tools"))
